@@ -90,6 +90,18 @@ def main():
         say('zoneinfo data present', True)
     except Exception as e:
         say('zoneinfo data present', False, repr(e))
+    # live dictionary: informational only (a changed tree is expected to
+    # hold constants the validated tree did not - that is what it is for)
+    try:
+        from vmon.gen import magic
+        summ = magic.pool().summary()
+        print('%-52s %s %s' % ('live dictionary read from the tree', 'ok',
+                               {k: v for k, v in summ.items()
+                                if k != 'novel'}))
+        print('%-52s %s' % ('constants not in the validated baseline',
+                            summ.get('novel') or 'none'))
+    except Exception as e:
+        say('live dictionary read from the tree', False, repr(e))
     print('selfcheck', 'passed' if ok else 'FAILED')
     return 0 if ok else 1
 
